@@ -24,9 +24,12 @@ def DState.set (st : DState) (id : String) (i : Inst) : DState :=
 def renderObs (i : Inst) : String :=
   " ".intercalate (i.ex.obs.map Tok.render) ++ " tie=" ++ bit i.tie
 
+/-- The three carriers run the same model text and differ ONLY in how comparisons within the tie margin are decided, so any difference
+    between their observations - a discrete one, or a float that a near-tied comparison selected (which of two tied minimisers is kept) -
+    means that a comparison taken so far was within the margin of a tie. -/
 def agree (i : Inst) : Bool :=
-  let a := i.ex.obs.map Tok.discrete
-  a == i.lo.obs.map Tok.discrete && a == i.hi.obs.map Tok.discrete
+  let a := i.ex.obs.map Tok.render
+  a == i.lo.obs.map Tok.render && a == i.hi.obs.map Tok.render
 
 def parseTape (args : List String) : List Nat :=
   match arg? args "t" with
